@@ -3,8 +3,9 @@ import Bclv.Model.Lexer
 import Bclv.Model.Parser
 import Bclv.Proofs.ParserErase4
 import Bclv.Proofs.LexLayout3
+import Bclv.Proofs.LexRender6
 /-!
-# C20 — layout, comments and redundant parentheses never change meaning (partial)
+# C20 — layout, comments and redundant parentheses never change meaning
 
 What decides this property on every run is the `layout` stream: each generated program is
 re-rendered with random admissible separators (all eight whitespace runes, comments with
@@ -35,6 +36,24 @@ the pieces that do not need a theory of re-rendering:
   `lexWhole_budget_free` (the lexer model's result does not depend on its two budgets once
   they exceed the input length resp. `3·len + 4`), `lexRun_erase` (a run over primitives
   that report offset 0 produces the same tokens with offsets erased);
+* `same_reading_same_program` (`Proofs/LexRender1`–`6`): **two source texts that read as the
+  same tokens compile to the same program.**  "`a` reads as `toks`" (`Lexes`) is defined
+  without the lexer: after any layout (whitespace runes, `#` comments to the line end) comes
+  the text of the first token, followed by something that ends it, and so on, until only
+  layout remains.  `lexWhole_of_lexes` shows the lexer returns exactly `toks` and the end
+  token.  The token texts are characterised by lemmas about the state functions, each with
+  the weakest condition on what follows: identifiers and keywords (`lexeme_ident`: next rune
+  not a letter, digit, `_` or `"`), decimal integers (`lexeme_int`: next rune not a digit,
+  `.`, `e`, `E`, letter or `"`), string literals without escapes (`lexeme_str`: the bytes
+  between the quotes reach the value one for one, next rune not a letter or digit),
+  one-rune punctuation (`lexeme_op1`: anything may follow), the first rune of a two-rune
+  operator (`lexeme_op2first`: next rune not the second one), two-rune operators
+  (`lexeme_op2`).  So any number and kind of separators between such tokens — and none at
+  all where the follow condition allows it — give the same tokens, hence (by
+  `parse_positions`) the same instructions, constants and verdict.  Not covered by a lexeme
+  lemma: floating-point and hexadecimal literals, escapes inside strings; and not a theorem
+  at all: that an optional `;` or redundant parentheses (different token lists) give the same
+  tree — those stay with the `layout` stream;
 * `positions_do_not_reach_code_partial`: the code bytes the compiler emits for an
   expression, a statement or a program do not depend on any recorded source position —
   two trees that differ only in positions compile to the same instructions;
@@ -58,6 +77,15 @@ theorem layout_only_through_tokens (toks₁ toks₂ : List Token) (lfs₁ lfs₂
 /-- Leading layout is skipped (lexer side), as a statement about whole inputs. -/
 theorem leading_layout (a : Bytes) : (lexWhole a).map eT = (lexWhole (skipSep a)).map eT :=
   leading_layout_skipped a
+
+/-- Layout between tokens does not matter: the statement about whole source texts. -/
+theorem layout_between_tokens (a b : Bytes) (toks : List Token)
+    (ha : Lexes (a.length + 1) toks a) (hb : Lexes (b.length + 1) toks b) :
+    (compileP (parseTokens (lexWhole a) (newlinesFrom 0 a)).prog).map Prod.fst
+      = (compileP (parseTokens (lexWhole b) (newlinesFrom 0 b)).prog).map Prod.fst ∧
+    (parseTokens (lexWhole a) (newlinesFrom 0 a)).consts = (parseTokens (lexWhole b) (newlinesFrom 0 b)).consts ∧
+    (parseTokens (lexWhole a) (newlinesFrom 0 a)).ok = (parseTokens (lexWhole b) (newlinesFrom 0 b)).ok :=
+  same_reading_same_program a b toks ha hb
 
 /-- non-vacuity: the same three tokens at different offsets -/
 example : ([⟨.PRINT, [112], [], 0⟩, ⟨.INT, [49], [], 6⟩, ⟨.EOF, [], [], 7⟩] : List Token).map eT
